@@ -43,10 +43,11 @@ package server
 //@   guard-call auth: "DispatchEvent|EventAppend|EventBroadcast|SendAllPackagesToNewClient" lastresult(ClientAuthenticate) == true
 //@   guard-store auth: "Client\.Authenticated$" lastresult(ClientAuthenticate) == true
 
+// A broadcast writes to operator connections (an effect) and moves the ghost send counter; nothing else.
 //@ func (t *Teamserver) EventBroadcast(ExceptClient string, pk packager.Package)
 //@   requires nonnil: t != nil
 //@   requires unlocked: allunlocked("Havoc/cmd/server.Client", "Mutex")
-//@   modifies *
+//@   modifies ghostint(t, "sent")
 
 // C11: a new operator is sent every retained event and then every live session:
 // unless a send fails, exactly len(EventsList) + (number of active agents) events go out,
@@ -76,7 +77,7 @@ package server
 //@ func (t *Teamserver) EventBroadcast$1(key any, value any, ExceptClient *string, t **Teamserver, pk *packager.Package) (r bool)
 //@   requires ctx: *t != nil && allunlocked("Havoc/cmd/server.Client", "Mutex")
 //@   requires entry: typeis(key, string) && typeis(value, *Client) && unboxed(value, *Client) != nil
-//@   modifies *
+//@   modifies ghostint(*t, "sent")
 //@   guard-call authd: "SendEvent" unboxed(value, *Client).Authenticated == true
 // C11: the fan-out never stops early: whatever happens with one client, Range goes on to the next
 //@   ensures goon: r == true
@@ -176,9 +177,27 @@ package server
 //@   guard-call up:   "LinkRemove#2" arg(1) == ParentAgent && arg(2) == Agent
 //@   requires nonnil: t != nil && t.DB != nil && t.DB.db != nil && Agent != nil && Agent.Info != nil && noNilLinks(Agent) && forall(i, 0, len(t.Agents.Agents), t.Agents.Agents[i] != nil && noNilLinks(t.Agents.Agents[i]))
 //@   modifies *
+// an agent already marked inactive stays inactive (nothing here ever sets the flag to true)
+//@   ensures dead: !old(Agent.Active) ==> !Agent.Active
 //@   loop "for len(Agent.Pivots.Links) > 0"
 //@     invariant wf: noNilLinks(Agent) && t.DB != nil && t.DB.db != nil && Agent.Info != nil
+//@     invariant dead: !old(Agent.Active) ==> !Agent.Active
 //@     decreases len(Agent.Pivots.Links)
+//@   loop "for _, ParentAgent := range t.Agents.Agents"
+//@     invariant dead: !old(Agent.Active) ==> !Agent.Active
+//@   loop "for i := range ParentAgent.Pivots.Links"
+//@     invariant dead: !old(Agent.Active) ==> !Agent.Active
+
+// C10: an agent that died is written to the database as inactive (so it is not restored).
+//@ func (t *Teamserver) EventAgentMark(AgentID string, Mark string)
+//@   requires nonnil: t != nil
+//@   requires unlocked: allunlocked("Havoc/cmd/server.Client", "Mutex")
+//@   modifies t.EventsList, t.EventsList[len(t.EventsList)], t.EventsList[len(t.EventsList)+1], ghostint(t, "sent")
+//@ func (t *Teamserver) Died(Agent *agent.Agent)
+//@   requires nonnil: t != nil && t.DB != nil && t.DB.db != nil && Agent != nil && Agent.Info != nil && noNilLinks(Agent) && forall(i, 0, len(t.Agents.Agents), t.Agents.Agents[i] != nil && noNilLinks(t.Agents.Agents[i]))
+//@   requires unlocked: allunlocked("Havoc/cmd/server.Client", "Mutex")
+//@   modifies *
+//@   guard-call deadrow: "AgentUpdate" arg(1) == Agent && !Agent.Active
 
 //@ func (t *Teamserver) AgentUpdate(agent *agent.Agent)
 //@   requires nonnil: t != nil && t.DB != nil && t.DB.db != nil && agent != nil && agent.Info != nil
